@@ -77,7 +77,8 @@ type meshReport struct {
 	Vertices      int
 	Unbalanced    int // directed edges whose multiplicity differs from the reverse edge
 	FirstBadEdge  [2]v3.Vec
-	IdenticalVert int // triangles with two bit-identical vertices
+	BadEdges      [][2]v3.Vec `json:"-"` // up to 64, for diagnostics
+	IdenticalVert int         // triangles with two bit-identical vertices
 	Volume        float64
 	NaN           int
 	Collapsed     int // triangles whose vertices weld to fewer than 3 ids
@@ -131,6 +132,9 @@ func checkClosed3(ts []*sdf.Triangle3, tol float64) meshReport {
 				rep.FirstBadEdge = where[e]
 			}
 			rep.Unbalanced++
+			if len(rep.BadEdges) < 64 {
+				rep.BadEdges = append(rep.BadEdges, where[e])
+			}
 		}
 	}
 	return rep
